@@ -150,10 +150,10 @@ func workerMain(args []string) {
 			if idx < 0 {
 				continue
 			}
-			// one input that sits for 15 s of wall clock having used almost no CPU is blocked, not looping:
+			// one input that sits for 45 s of wall clock having used almost no CPU is blocked, not looping:
 			// give the case up (the real CLI would end in Go's deadlock abort); the property decides what that means
-			if t, ok := inputStartWall.Load().(time.Time); ok && !t.IsZero() && time.Since(t) > 15*time.Second {
-				if c, ok := inputStartCPU.Load().(float64); ok && cpuSeconds()-c < 0.5 {
+			if t, ok := inputStartWall.Load().(time.Time); ok && !t.IsZero() && time.Since(t) > 45*time.Second {
+				if c, ok := inputStartCPU.Load().(float64); ok && cpuSeconds()-c < 0.3 {
 					fmt.Fprintf(prog, "BLOCKED %d\n", idx)
 					f, _ := os.Create(args[7] + ".stacks")
 					if f != nil {
